@@ -102,6 +102,9 @@ type c16Layer struct {
 	build func(dir string, cs []child) (hackpadfs.FS, func())
 }
 
+// c16SetupErr is set by a layer's build function when the composition cannot be set up
+var c16SetupErr string
+
 func c16Layers() []c16Layer {
 	return []c16Layer{
 		{"mem", true, func(dir string, cs []child) (hackpadfs.FS, func()) {
@@ -123,6 +126,29 @@ func c16Layers() []c16Layer {
 				if c.isDir {
 					if err := m.AddMount(joinP(dir, c.name), newMem()); err != nil {
 						panic(err)
+					}
+					break
+				}
+			}
+			return m, func() {}
+		}},
+		{"nested", false, func(dir string, cs []child) (hackpadfs.FS, func()) {
+			// the listed directory is itself a mount point and its first directory child is a mount point inside that mounted FS
+			root, inner := newMem(), newMem()
+			m, _ := mount.NewFS(root)
+			if dir == "." {
+				populate(root, dir, cs)
+			} else {
+				_ = hackpadfs.MkdirAll(root, dir, 0o755)
+				populate(inner, ".", cs)
+				if err := m.AddMount(dir, inner); err != nil {
+					c16SetupErr = fmt.Sprintf("AddMount(%q) failed although the root file system has that directory: %v", dir, err)
+				}
+			}
+			for _, c := range cs {
+				if c.isDir {
+					if err := m.AddMount(joinP(dir, c.name), newMem()); err != nil && c16SetupErr == "" {
+						c16SetupErr = fmt.Sprintf("AddMount(%q) failed although the file system mounted at %q has that directory: %v", joinP(dir, c.name), dir, err)
 					}
 					break
 				}
@@ -245,9 +271,16 @@ func runC16(r *Rng, n int, replay string) {
 		dir := []string{".", "d", "d/e", ".d", ".d/e", "d/.e"}[r.Intn(6)]
 		cs := genChildren(r, k)
 		pages := genPages(r, k)
+		c16SetupErr = ""
 		fs, done := l.build(dir, cs)
 		c := &Case{ID: id, Kind: l.id}
 		c.Text = append(c.Text, fmt.Sprintf("[%s] dir %q with %d children, pages %v", l.id, dir, k, pages))
+		if c16SetupErr != "" {
+			c.fail(fmt.Sprintf("[%s] dir %q: %s", l.id, dir, c16SetupErr), l.id+":setup")
+			done()
+			emit(c)
+			continue
+		}
 		c.Cells = []string{fmt.Sprintf("%s/k%d", l.id, bucket(k))}
 		want := map[string]bool{}
 		var names []string
@@ -296,7 +329,7 @@ func runC16(r *Rng, n int, replay string) {
 					fail("byname:kind", "child %q: kind in listing differs from Stat", e.Name())
 				}
 				mountPoint := false
-				if l.id == "mount" {
+				if l.id == "mount" || l.id == "nested" {
 					for _, ch := range cs {
 						if ch.isDir {
 							mountPoint = ch.name == e.Name()
@@ -428,6 +461,48 @@ func runC16(r *Rng, n int, replay string) {
 	}
 	_ = gofs.ModeDir
 	runC16Retry(r, n/8, n)
+	runC16Covered(n + n/8 + 1)
+}
+
+// runC16Covered: a mount point must be a directory of the file system its path routes to.  The root has a/b, but the
+// file system mounted at a has no b: either AddMount("a/b") is refused, or b shows up in the listing of a -- a child
+// that Stat accepts and its parent's listing lacks is exactly what the property excludes.
+func runC16Covered(firstID int) {
+	for v := 0; v < 3; v++ {
+		outer, inner := []string{"a", "d", ".d"}[v], []string{"b", "e", "e"}[v]
+		root, m1, m2 := newMem(), newMem(), newMem()
+		_ = hackpadfs.MkdirAll(root, outer+"/"+inner, 0o755)
+		_ = hackpadfs.WriteFullFile(m1, "x", []byte{1}, 0o644)
+		_ = hackpadfs.WriteFullFile(m2, "y", []byte{2}, 0o644)
+		c := &Case{ID: firstID + v, Kind: "covered", Trivial: true}
+		c.Cells = []string{"covered"}
+		m, _ := mount.NewFS(root)
+		if err := m.AddMount(outer, m1); err != nil {
+			c.fail(fmt.Sprintf("[covered] AddMount(%q) failed although the root has that directory: %v", outer, err), "covered:setup")
+			emit(c)
+			continue
+		}
+		p := outer + "/" + inner
+		err := m.AddMount(p, m2)
+		c.Text = []string{fmt.Sprintf("[covered] root has %s, the file system mounted at %q has no %q; AddMount(%q) -> %v", p, outer, inner, p, err)}
+		if err == nil {
+			es, lerr := hackpadfs.ReadDir(m, outer)
+			listed := false
+			for _, e := range es {
+				if e.Name() == inner {
+					listed = true
+				}
+			}
+			if _, serr := hackpadfs.Stat(m, p); serr == nil && lerr == nil && !listed {
+				var names []string
+				for _, e := range es {
+					names = append(names, e.Name())
+				}
+				c.fail(fmt.Sprintf("%s: Stat(%q) succeeds but the listing of %q is %v: a child is missing from its parent's listing", c.Text[0], p, outer, names), "covered:unlisted")
+			}
+		}
+		emit(c)
+	}
 }
 
 // runC16Retry: a page whose entries could not be loaded (one store call fails once) delivers nothing, so it must not
